@@ -416,7 +416,7 @@ def translate():
 # ----------------------------------------------------------------------------------------
 THEOREMS = [
     # read: one record per run, in order, header tokens as columns, printed rows row for row (incl. truncated last run)
-    'C19.read_tables', 'C19.read_layout', 'C19.read_render', 'C19.read_breakdown',
+    'C19.read_tables', 'C19.read_layout', 'C19.read_render', 'C19.read_breakdown', 'C19.read_breakdown_old',
     # read(append=True/False)
     'C19.read_append', 'C19.read_reset', 'C19.append_concat',
     # the log handed over as an open stream (an object that outlives the call, with a position)
@@ -436,13 +436,17 @@ THEOREMS = [
     'C19.flatten_last_empty_first',
     # the refusals of flatten, and the one-record selection
     'C19.flatten_refuses_missing_step', 'C19.flatten_refuses_empty', 'C19.flatten_refuses_style', 'C19.flatten_single',
+    # runs with different thermo keywords: columns of the merged table = union in order of first appearance, NaN fill
+    'C19.flatten_columns', 'C19.mem_unionCols', 'C19.nodup_unionCols', 'C19.flatten_rows_width',
 ]
 PARTIAL = {
-    'timing breakdown': 'read_breakdown (read() returns and the records are right) covers the `MPI task timing breakdown` '
-                        'layout with well-formed blocks; the old `Pair  time (%) = …` layout and malformed/unterminated '
-                        'blocks are covered for the thermo clause by read_tables (unconditional) and read_layout '
-                        '(conditional on read() returning), their non-raising by the correspondence only; the content of '
-                        'the performance tables is not part of the property and compared in the correspondence only',
+    'timing breakdown': 'read_breakdown / read_breakdown_old (read() returns and the records are right) cover the `MPI task '
+                        'timing breakdown` layout and the old `Pair  time (%) = …` layout with well-formed blocks (a log '
+                        'mixing both layouts is not covered: the code parses all blocks of a read in one layout); '
+                        'malformed/unterminated blocks are covered for the thermo clause by read_tables (unconditional) '
+                        'and read_layout (conditional on read() returning), their non-raising by the correspondence only; '
+                        'the content of the performance tables is not stated as a theorem: correspondence (model '
+                        'readPerfNew/readPerfOld) and oracle clause read:performance',
     'value by value': 'the theorems are about the printed tokens (strings); that pandas turns the token of an int/float '
                       'column into the number it denotes is an assumption, checked by the oracle on the real code',
     'flatten with empty runs': 'no longer partial as a description of the code: flatten_first (non-empty first run, later '
@@ -466,6 +470,12 @@ RULE = ('logs synthesised from the documented layout: optional LAMMPS (<d> <Mon>
         'is part of the history: one stream object handed to 2-4 consecutive reads as the previous read left it, or moved '
         'by the caller to the start / the end / a line start / mid-line / before a terminator, fresh streams handed over '
         'at such positions, streams opened in text mode (documented refusal); '
+        'round 3: calls by position / by keyword / with defaults (flatten() without style), append as 0/1/numpy bools, '
+        'a new Log() observed empty, getters read in alternating order, every flatten result scribbled over in place and '
+        'the log re-read, a record edited in place by the caller between two identical flattens, one file name '
+        'rewritten between reads, fresh streams closed by the caller right after the read, tables of 40-130 columns, '
+        'lines of 5-20 kB, one log > 256 KiB (search), timesteps beyond 2^53, bracketed keywords, tokens .5 / 5. / 1E+05 / '
+        'NaN / decimal commas (stay text), lines that come close to a trigger string; '
         'malformed logs for the error classes. distinct = distinct (log texts, ops); '
         'non-trivial = at least one run in the history')
 ASSUMPTIONS = [
@@ -501,7 +511,7 @@ MANIFEST = {
             'date); a log handed over as an open stream is read like its content whatever the position of the stream, also '
             'when the same stream object is handed over again; append concatenates and append=False resets; flatten all = concatenation; first/last keep exactly the '
             'rows not superseded by an earlier/later run, each step once, from the earliest/latest run printing it, sorted, '
-            'complete on aligned grids; logs with well-formed MPI timing-breakdown blocks are read without exception. Tie: translator for the constants + differential correspondence real Log vs '
+            'complete on aligned grids, both styles characterised also for header-only runs; the refusals of flatten (no Step column: AssertionError, unknown style over two or more records: ValueError, empty selection: IndexError) and the one-record selection; logs with well-formed timing blocks of the new or of the old layout are read without exception. Tie: translator for the constants + differential correspondence real Log vs '
             'compiled model on synthesised histories (exact on integers, 16 ulp on floats); failing-input search with the '
             'property clauses evaluated on the real code from the run specifications alone.',
     'note': 'Trusted: Lean kernel + propext/Classical.choice/Quot.sound; pandas read_csv/concat behaviour as stated in '
@@ -933,11 +943,20 @@ def canon_value(v):
         return canon_token(v) if v != '' else NAN
     if v is None:
         return NAN
+    try:
+        import pandas as pd
+        if v is pd.NA or v is pd.NaT:       # nullable dtypes: a missing value is a missing value
+            return NAN
+    except Exception:  # noqa
+        pass
     if isinstance(v, (bool, np.bool_)):
         return ('s', str(v))
     if isinstance(v, (int, np.integer)):
         return Fraction(int(v))
-    f = float(v)
+    try:
+        f = float(v)
+    except Exception:  # noqa          (a cell that is neither text nor a number is shown as what it is)
+        return ('s', type(v).__name__ + ' ' + repr(v)[:40])
     if math.isnan(f):
         return NAN
     if math.isinf(f):
@@ -1050,12 +1069,30 @@ def impl_perf(df):
     return (cols, rows)
 
 
+_GETTER_ORDER = [0]
+
+
 def impl_state(log, record=True):
-    d = log.lammps_date
-    return {'version': log.lammps_version,
-            'date': None if d is None else (d.year, d.month, d.day),
-            'sims': [(impl_table(s.thermo, record), impl_perf(s.performance)) for s in log.simulations],
-            'keys': [list(s.keys()) for s in log.simulations]}
+    """what the getters of the Log say.  The ORDER in which they are read alternates from call to call (a getter that
+    fills or clears a cache behind another one shows up as a difference between two reads of the same state)."""
+    _GETTER_ORDER[0] += 1
+    got = {}
+    names = ['version', 'date', 'sims']
+    if _GETTER_ORDER[0] % 3 == 1:
+        names = ['sims', 'date', 'version']
+    elif _GETTER_ORDER[0] % 3 == 2:
+        names = ['date', 'sims', 'version']
+    for nm in names:
+        if nm == 'version':
+            got['version'] = log.lammps_version
+        elif nm == 'date':
+            d = log.lammps_date
+            got['date'] = None if d is None else (d.year, d.month, d.day)
+        else:
+            sims = log.simulations
+            got['sims'] = [(impl_table(s.thermo, record), impl_perf(s.performance)) for s in sims]
+            got['keys'] = [list(s.keys()) for s in sims]
+    return {'version': got['version'], 'date': got['date'], 'sims': got['sims'], 'keys': got['keys']}
 
 
 EXC_CLASS = {'ParserError': 'parser', 'EmptyDataError': 'parser', 'ValueError': 'value', 'IndexError': 'index',
@@ -1713,6 +1750,8 @@ def _malformed_histories(rng):
         B + '\nStep Temp\n0 1.5\n10 2.5 7 8\n',                      # row wider than the header
         B + '\nStep Temp\n0 1.5\nWARNING: a b c d\n10 2\nLoop time of 1\n',
         'LAMMPS (12 Foo 2020)\n' + B + '\nStep\n0\n',                # unknown month
+        'LAMMPS (7 August 2019)\n' + B + '\nStep\n0\n',              # month not abbreviated (LAMMPS never prints it)
+        'LAMMPS (7 aug 2019)\n' + B + '\nStep\n0\n',                 # lower case
         'LAMMPS (12 Feb)\n' + B + '\nStep\n0\n',                     # no year
         'LAMMPS (30 Feb 2020)\n' + B + '\nStep\n0\n',                # impossible day
         'LAMMPS (x Feb 2020)\n' + B + '\nStep\n0\n',                 # day not a number
